@@ -273,6 +273,164 @@ def far(v):
     return not (-262143 <= y <= 262142)
 
 
+
+# ------------------------------------------------------------------ date-times and times in named zones (laws on the implementation's answers + zoneinfo oracle)
+ZPAIR_EXPR = ('[va = vb, va != vb, va < vb, va <= vb, va > vb, va >= vb, va and vb, va or vb, va in vb, '
+              'va in (< vb), va in (<= vb), va in (> vb), va in (>= vb)]')
+ULT, ULE, UGT, UGE = 9, 10, 11, 12
+ZOPS = OPS + ['in (< b)', 'in (<= b)', 'in (> b)', 'in (>= b)']
+ZTRI_EXPR = ('[vx between va and vb, vx in [va..vb], vx in (va..vb], vx in [va..vb), vx in (va..vb), '
+             'vx in (>= va) and vx in (<= vb), vx in (> va) and vx in (<= vb), vx in (>= va) and vx in (< vb), vx in (> va) and vx in (< vb)]')
+ZTRI_NAMES = TRI_NAMES[:5] + ['x in (>= a) and x in (<= b)', 'x in (> a) and x in (<= b)', 'x in (>= a) and x in (< b)', 'x in (> a) and x in (< b)']
+# (zone, date of an offset change, local wall-clock minutes before the gap/overlap, after it) — both hemispheres, 1990..2021
+TRANSITIONS = [
+    ('Europe/Warsaw', (2021, 3, 28), [(1, 30), (1, 59)], [(3, 0), (3, 10), (3, 30)]),          # 02:00 -> 03:00
+    ('Europe/Warsaw', (2021, 10, 31), [(1, 30), (1, 59)], [(3, 0), (3, 30)]),                 # 03:00 -> 02:00 (02:xx ambiguous, not used)
+    ('America/New_York', (2021, 3, 14), [(1, 30), (1, 45)], [(3, 0), (3, 15)]),
+    ('America/New_York', (2021, 11, 7), [(0, 30), (0, 59)], [(2, 0), (2, 30)]),
+    ('Australia/Sydney', (2021, 4, 4), [(1, 30), (1, 59)], [(3, 0), (3, 20)]),                # southern hemisphere: 03:00 -> 02:00 in April
+    ('Australia/Sydney', (2021, 10, 3), [(1, 30), (1, 50)], [(3, 0), (3, 10)]),               # 02:00 -> 03:00 in October
+    ('Pacific/Auckland', (1999, 10, 3), [(1, 30)], [(3, 0), (3, 25)]),
+    ('Europe/London', (1996, 3, 31), [(0, 30), (0, 59)], [(2, 0), (2, 20)]),
+]
+
+
+class ZV(V):
+    __slots__ = ('instant', 'cluster')
+
+
+def zoned_values():
+    """clusters of date-times around an offset change: the named-zone spelling, the same instant with Z and with its explicit offset"""
+    import datetime
+    import zoneinfo
+    utc = datetime.timezone.utc
+    out = []
+    for ci, (zone, (y, mo, d), before, after) in enumerate(TRANSITIONS):
+        z = zoneinfo.ZoneInfo(zone)
+        for h, mi in before + after:
+            naive = datetime.datetime(y, mo, d, h, mi, 0)
+            a0, a1 = naive.replace(tzinfo=z, fold=0), naive.replace(tzinfo=z, fold=1)
+            if a0.utcoffset() != a1.utcoffset() or a0.astimezone(utc).astimezone(z).replace(tzinfo=None) != naive:
+                continue        # ambiguous or skipped local time: excepted by the property
+            u = a0.astimezone(utc)
+            inst = int(u.timestamp())
+            off = int(a0.utcoffset().total_seconds())
+            texts = ['%04d-%02d-%02dT%02d:%02d:00@%s' % (y, mo, d, h, mi, zone),
+                     u.strftime('%Y-%m-%dT%H:%M:%SZ'),
+                     '%04d-%02d-%02dT%02d:%02d:00%s' % (y, mo, d, h, mi, off_text(off))]
+            if ci % 2 == 0:
+                texts.append(u.strftime('%Y-%m-%dT%H:%M:%S@Etc/UTC'))
+            for t in texts:
+                v = ZV('date and time("%s")' % t, None, 'zdt')
+                v.instant, v.cluster = inst, ci
+                out.append(v)
+    return out
+
+
+def zoned_times():
+    ts = []
+    for t in ['10:00:00@Europe/Warsaw', '10:00:00@Etc/UTC', '10:00:00Z', '09:00:00@Europe/London', '04:00:00@America/New_York', '20:00:00@Australia/Sydney',
+              '08:00:00Z', '09:00:00Z', '10:00:00+02:00', '10:00:00+01:00', '22:00:00@Pacific/Auckland', '05:00:00@America/New_York']:
+        v = ZV('time("%s")' % t, None, 'ztime')
+        v.instant, v.cluster = None, -1
+        ts.append(v)
+    return ts
+
+
+def zpair_laws(a, b, rab, rba):
+    if rab[EQ] != rba[EQ]:
+        yield 'a = b is %s but b = a is %s' % (SHOW[rab[EQ]], SHOW[rba[EQ]])
+    if rab[NE] != not3(rab[EQ]):
+        yield 'a != b is %s but a = b is %s' % (SHOW[rab[NE]], SHOW[rab[EQ]])
+    if rab[LT] != rba[GT]:
+        yield 'a < b is %s but b > a is %s' % (SHOW[rab[LT]], SHOW[rba[GT]])
+    if rab[LE] != rba[GE]:
+        yield 'a <= b is %s but b >= a is %s' % (SHOW[rab[LE]], SHOW[rba[GE]])
+    if rab[AND] != NULL or rab[OR] != NULL:
+        yield "'and' / 'or' of two non-booleans is not null"
+    if a.kind == b.kind:
+        if rab[ULT] != rba[UGT]:
+            yield 'a in (< b) is %s but b in (> a) is %s' % (SHOW[rab[ULT]], SHOW[rba[UGT]])
+        if rab[ULE] != rba[UGE]:
+            yield 'a in (<= b) is %s but b in (>= a) is %s' % (SHOW[rab[ULE]], SHOW[rba[UGE]])
+        three = [rab[ULT], rab[EQ], rab[UGT]]
+        if sorted(three) != [FALSE, FALSE, TRUE]:
+            yield 'not exactly one of a in (< b), a = b, a in (> b) is true: %s' % [SHOW[x] for x in three]
+        if rab[ULE] != kleene_or(rab[ULT], rab[EQ]):
+            yield 'a in (<= b) is %s but (a in (< b) or a = b) is %s' % (SHOW[rab[ULE]], SHOW[kleene_or(rab[ULT], rab[EQ])])
+        if rab[IN] != rab[EQ]:
+            yield 'a in b is %s but a = b is %s' % (SHOW[rab[IN]], SHOW[rab[EQ]])
+
+
+def b3(x):
+    return TRUE if x else FALSE
+
+
+def zoned_section(ctx):
+    Z = zoned_values()
+    T = zoned_times()
+    n_pairs = n_tri = 0
+    for group, label in ((Z, 'date-times in named zones'), (T, 'times in named zones')):
+        pairs = [(a, b) for a in group for b in group]
+        reqs = [{'ctx': '{va: %s, vb: %s}' % (a.feel, b.feel), 'e': ZPAIR_EXPR} for a, b in pairs]
+        table = {}
+        for (a, b), r in zip(pairs, ctx.run_impl('feel', reqs, shards=16)):
+            v = r.get('v')
+            table[(a.feel, b.feel)] = [code(x) for x in v] if isinstance(v, list) and len(v) == 13 else ('fail', r)
+        for a, b in pairs:
+            ctx.evaluations += 1
+            n_pairs += 1
+            rab, rba = table[(a.feel, b.feel)], table[(b.feel, a.feel)]
+            case = {'a': a.feel, 'b': b.feel, 'expr': ZPAIR_EXPR, 'operators': ZOPS}
+            if rab[0] == 'fail' or rba[0] == 'fail':
+                bad = rab if rab[0] == 'fail' else rba
+                ctx.violation('evaluation of the operators failed or panicked: %s' % (bad[1],), case, impl=bad[1])
+                continue
+            ctx.nontrivial.add((a.feel, b.feel))
+            fails = list(zpair_laws(a, b, rab, rba))
+            if fails:
+                ctx.violation('%s  [a = %s, b = %s]' % (fails[0], a.feel, b.feel), case,
+                              impl={'a op b': dict(zip(ZOPS, [SHOW[x] for x in rab])), 'b op a': dict(zip(ZOPS, [SHOW[x] for x in rba]))}, laws_failed=fails)
+                continue
+            ctx.corr_checked += 1
+            if a.instant is not None:
+                want = {EQ: b3(a.instant == b.instant), ULT: b3(a.instant < b.instant), ULE: b3(a.instant <= b.instant),
+                        UGT: b3(a.instant > b.instant), UGE: b3(a.instant >= b.instant)}
+                diff = [ZOPS[i] for i, w in want.items() if rab[i] != w]
+                if diff:
+                    ctx.corr_broken('%s: operators %s differ from the instants computed with zoneinfo' % (label, diff), case,
+                                    [SHOW[x] for x in rab], {ZOPS[i]: SHOW[w] for i, w in want.items()})
+    # triples inside a cluster (values less than two hours apart around one offset change, in all spellings)
+    triples = []
+    for ci in sorted(set(v.cluster for v in Z)):
+        g = [v for v in Z if v.cluster == ci]
+        if ctx.quick:
+            g = g[::2] if len(g) > 10 else g
+        triples += [(x, a, b) for x in g for a in g for b in g]
+    reqs = [{'ctx': '{vx: %s, va: %s, vb: %s}' % (x.feel, a.feel, b.feel), 'e': ZTRI_EXPR} for x, a, b in triples]
+    for (x, a, b), r in zip(triples, ctx.run_impl('feel', reqs, shards=16)):
+        ctx.evaluations += 1
+        n_tri += 1
+        case = {'x': x.feel, 'a': a.feel, 'b': b.feel, 'expr': ZTRI_EXPR, 'names': ZTRI_NAMES}
+        v = r.get('v')
+        if not isinstance(v, list) or len(v) != 9:
+            ctx.violation('evaluation of between / in failed or panicked: %s' % (r,), case, impl=r)
+            continue
+        c = [code(t) for t in v]
+        fails = ["'%s' is %s but '%s' is %s" % (ZTRI_NAMES[i], SHOW[c[i]], ZTRI_NAMES[j], SHOW[c[j]])
+                 for i, j in ((0, 1), (0, 5), (2, 6), (3, 7), (4, 8)) if c[i] != c[j] or c[i] not in (TRUE, FALSE)]
+        if fails:
+            ctx.violation('%s  [x = %s, a = %s, b = %s]' % (fails[0], x.feel, a.feel, b.feel), case, impl=dict(zip(ZTRI_NAMES, [SHOW[t] for t in c])), laws_failed=fails)
+            continue
+        ctx.corr_checked += 1
+        ctx.nontrivial.add((x.feel, a.feel, b.feel))
+        want = b3(a.instant <= x.instant <= b.instant)
+        if c[0] != want:
+            ctx.corr_broken('date-times in named zones: between differs from the instants computed with zoneinfo', case, SHOW[c[0]], SHOW[want])
+    ctx.sample({'zoned_pair': {'a': Z[0].feel, 'b': Z[5].feel}})
+    return {'zoned_date_times': len(Z), 'zoned_times': len(T), 'zoned_pairs': n_pairs, 'zoned_triples': n_tri, 'zones': sorted(set(t[0] for t in TRANSITIONS))}
+
+
 # ------------------------------------------------------------------ running
 def code(j):
     return NULL if j is None else TRUE if j is True else FALSE if j is False else OTHER
@@ -416,6 +574,7 @@ def run(ctx):
     rtmodel = ctx.run_model(HEADER, ['%s %s %s %s' % (TRI, x.coq, a.coq, b.coq) for x, a, b in rt], shard_size=max(250, len(rt) // 16 + 1), tag='rtri')
     check_triples(ctx, rt, rtimpl, rtmodel, 'random triple:')
     ctx.sample({'random_group': [v.feel for v in groups[-1]]})
+    zcov = zoned_section(ctx)
     kinds = {}
     for v in A:
         kinds[v.kind] = kinds.get(v.kind, 0) + 1
@@ -424,11 +583,13 @@ def run(ctx):
              '%s for between / in [a..b] (a..b] [a..b) (a..b) / the four conjunctions; random groups of 5 numbers (scales 0..33, equal values with different scale), strings over '
              'ASCII / BMP / supplementary planes, dates (near and far beyond the chrono year range) with all pairs and triples inside a group. Laws (Kleene tables with non-booleans as null, '
              '= symmetric, != negation, < / > and <= / >= mirrored, trichotomy, <= iff < or =, between = in = conjunction) are evaluated on the implementation\'s own answers; '
-             'all answers are compared with the Coq model. non-trivial = same-kind pair / triple, an operand that is null or boolean, or a non-null comparison'
+             'all answers are compared with the Coq model. Date-times in named IANA zones (Warsaw, London, New York, Sydney, Auckland, Etc/UTC) just before / after an offset change, '
+             'the same instants written with Z and with explicit offsets, and times in named zones: all ordered pairs x 13 operators (the 9 plus in (< b), (<= b), (> b), (>= b)) and all triples inside a change for between / in / '
+             'conjunction of unary tests, laws on the implementation\'s answers, truth values against instants computed with zoneinfo. non-trivial = same-kind pair / triple, an operand that is null or boolean, or a non-null comparison'
              % (n, ', '.join('%d %s' % (c, k) for k, c in sorted(kinds.items())), 'a sample of 6000 mixed-kind triples' if ctx.quick else 'all other triples of the alphabet'),
         extra_cov={'exhaustive': 'pairs of the alphabet: yes; triples: %s' % ('ordered kinds only + sample' if ctx.quick else 'yes'), 'alphabet_size': n, 'alphabet_kinds': kinds,
-                   'alphabet_triples': len(tset), 'random_groups': len(groups), 'model_variant': 'orig' if ORIG else 'current'},
-        assumptions=['times and date-times carry explicit offsets or Z (local times and named zones depend on the host and the zone database: C14/C15)',
+                   'alphabet_triples': len(tset), 'random_groups': len(groups), 'model_variant': 'orig' if ORIG else 'current', **zcov},
+        assumptions=['the Coq model covers times and date-times with explicit offsets or Z; named zones are checked by laws and a zoneinfo oracle (years 1990..2021, no ambiguous or skipped local times); local times depend on the host and are not used',
                      'context keys are plain single-part names'],
         trusted=['String::cmp / Name::cmp compare UTF-8 bytes; that this is the code-point order of the model is exercised on mixed-plane strings, not proved',
                  'decNumber compare is exact (modelled as exact comparison of c*10^e); chrono instants of date-times (modelled with days_from_civil)'])
@@ -442,12 +603,12 @@ def replay(ctx, path):
         print(json.dumps(obj, indent=1))
         return 1
     if 'x' in c:
-        req = {'ctx': '{vx: %s, va: %s, vb: %s}' % (c['x'], c['a'], c['b']), 'e': TRI_EXPR}
-        names = TRI_NAMES
-        reqs = [req]
+        reqs = [{'ctx': '{vx: %s, va: %s, vb: %s}' % (c['x'], c['a'], c['b']), 'e': c.get('expr', TRI_EXPR)}]
+        names = c.get('names', TRI_NAMES)
     else:
-        reqs = [{'ctx': '{va: %s, vb: %s}' % (c['a'], c['b']), 'e': PAIR_EXPR}, {'ctx': '{va: %s, vb: %s}' % (c['b'], c['a']), 'e': PAIR_EXPR}]
-        names = OPS
+        e = c.get('expr', PAIR_EXPR)
+        reqs = [{'ctx': '{va: %s, vb: %s}' % (c['a'], c['b']), 'e': e}, {'ctx': '{va: %s, vb: %s}' % (c['b'], c['a']), 'e': e}]
+        names = c.get('operators', OPS)
     print('what:', obj.get('what'))
     for q, ans in zip(reqs, ctx.run_impl('feel', reqs)):
         print('context:', q['ctx'])
